@@ -1301,6 +1301,18 @@ def t_opt_cmp_fold(facts, res, tier):
         textual_eq = [x for x in walk(c) if x.get("k") == "binary" and x["op"] == "==" and "dasm_operand" in _norm(x)]
         calls = [x for x in walk(c) if x.get("k") == "call" and x["func"].get("k") == "path" and x["func"]["segs"][-1] in numeric_fns]
         res.inst(key, True, {"compare": cmp_, "branch": arm, "condition": _norm(c)[:120]})
+        # the compare's C / N / Z may feed a second branch (`CMP / BEQ / BCS` is how > is written): the fold looks ahead
+        look = False
+        for x in walk(c):
+            if x.get("k") == "unary" and x["op"] == "!":
+                nm = simple_name(x["e"])
+                b = env.get(nm) if nm else None
+                if b is not None and b.init is not None:
+                    it = _norm(b.init)
+                    if "peek()" in it and all(m in it for m in ("BCC", "BCS", "BEQ", "BNE", "BMI", "BPL")):
+                        look = True
+        if not look:
+            res.fail(key + ":second-consumer", facts.where(fn, node), "optimize() deletes `%s #m / %s` without looking at the instruction after the branch: when that is another conditional branch (`CMP #3 / BEQ .a / BCS .b`, the long-branch repair of `>` and the generator's own `>` pattern) it tests the carry or sign of the deleted compare" % (cmp_, arm))
         if arm == "BEQ":
             if textual_ne:
                 res.fail(key, facts.where(fn, node), "optimize() deletes `%s #m / BEQ` when the register's known operand text differs from the compare's (`%s`): two different texts (`#<arr` and `#131`) may be the same byte, and the deleted branch would have been taken" % (cmp_, _norm(textual_ne[0])[:60]))
